@@ -163,12 +163,12 @@ pub fn gen_c01(sh: &mut Shards, o: &Opts) -> serde_json::Value {
     {
         let mut rng = Rng::new(o.seed, 0x0101_c000);
         for &ma in &crate::util::MC_ALL {
-            for &pa in &[1u8, 5, 9] {
+            for &pa in &[1u8, 5, 9, 22, 6, 10] {
                 for &mb in &MC_STD {
                     for full in [false, true] {
                         let n = if (ma + mb) % 2 == 0 { 8u8 } else { 10 };
                         let a = Cfg { mc: ma, tc: 1, cp: pa, full: !full, n, ssx: 0, ssy: 0 };
-                        let b = Cfg { mc: mb, tc: 13, cp: [1u8, 9, 5, 6][(ma as usize + mb as usize) % 4], full, n, ssx: 0, ssy: 0 };
+                        let b = Cfg { mc: mb, tc: 13, cp: if pa == 22 { 6 } else if pa == 6 { 22 } else { [1u8, 9, 5, 6][(ma as usize + mb as usize) % 4] }, full, n, ssx: 0, ssy: 0 };
                         let maxc = (1u64 << n) - 1;
                         let px: Vec<[u16; 3]> = (0..7).map(|_| [rng.below(maxc + 1) as u16, rng.below(maxc + 1) as u16, rng.below(maxc + 1) as u16]).collect();
                         if let Ok(ya) = yuv444::<u16>(&px, 7, 1, &a) {
@@ -356,13 +356,13 @@ pub fn gen_c02(sh: &mut Shards, o: &Opts) -> serde_json::Value {
     {
         let mut rng = Rng::new(o.seed, 0x0202_c000);
         for &ma in &crate::util::MC_ALL {
-            for &pa in &[1u8, 5, 9] {
+            for &pa in &[1u8, 5, 9, 22, 6, 10] {
                 for &mb in &MC_STD {
                     for full in [false, true] {
                         let n = if (ma + mb) % 2 == 0 { 8u8 } else { 10 };
                         let a = Cfg { mc: ma, tc: 1, cp: pa, full: !full, n, ssx: 0, ssy: 0 };
                         let tb = [13u8, 16, 1, 8][(ma as usize + mb as usize) % 4];
-                        let pb = [1u8, 9, 5, 6][(ma as usize + mb as usize) % 4];
+                        let pb = if pa == 22 { 6 } else if pa == 6 { 22 } else { [1u8, 9, 5, 6][(ma as usize + mb as usize) % 4] };
                         let b = Cfg { mc: mb, tc: tb, cp: pb, full, n, ssx: 0, ssy: 0 };
                         let px: Vec<[f32; 3]> = (0..7).map(|_| [rng.f32_in(-0.5, 1.5), rng.f32_in(-0.5, 1.5), rng.f32_in(-0.5, 1.5)]).collect();
                         let rgb = Rgb::new(px.clone(), 7, 1, tc(1), cp(pa)).expect("rgb ctor");
